@@ -1,0 +1,72 @@
+//go:build verif
+
+package store
+
+// Test-only hooks for the external verification harness in /verif (build tag `verif`).
+// Nothing here changes behaviour of existing code; the file only adds exported entry points
+// to internals that an external package cannot otherwise reach.
+
+import (
+	"github.com/canopy-network/canopy/lib"
+	"github.com/cockroachdb/pebble/v2"
+	"github.com/cockroachdb/pebble/v2/vfs"
+)
+
+// VerifPurgeBlockCache empties the process-wide block cache (keyed by height only), which
+// lets a harness hosting several nodes in one process model "one process per node"
+func VerifPurgeBlockCache() { blockCache.Purge() }
+
+// VerifOpenWithFS opens a Store exactly like NewStoreInMemory() does but on a caller supplied
+// file system and directory (e.g. pebble's crashable in-memory file system)
+func VerifOpenWithFS(fs vfs.FS, dir string, memTableSize uint64, config lib.Config, log lib.LoggerI) (*Store, lib.ErrorI) {
+	opts := &pebble.Options{
+		FS:                    fs,
+		L0CompactionThreshold: 20,
+		L0StopWritesThreshold: 40,
+		FormatMajorVersion:    pebble.FormatColumnarBlocks,
+		Logger:                log,
+		BlockPropertyCollectors: []func() pebble.BlockPropertyCollector{
+			func() pebble.BlockPropertyCollector { return newVersionedPropertyCollector() },
+		},
+	}
+	if memTableSize != 0 {
+		opts.MemTableSize = memTableSize
+	}
+	db, err := pebble.Open(dir, opts)
+	if err != nil {
+		return nil, ErrOpenDB(err)
+	}
+	return NewStoreWithDB(config, db, nil, log)
+}
+
+// VerifOp is an exported form of a pending state operation
+type VerifOp struct {
+	Key, Value []byte
+	Delete     bool
+}
+
+// VerifSMTCommit feeds explicit operations to an SMT through the same entry points Store.Root() uses
+func VerifSMTCommit(s *SMT, ops []VerifOp, parallel bool) lib.ErrorI {
+	m := make(map[uint64]valueOp, len(ops))
+	for i, o := range ops {
+		v := valueOp{key: o.Key, value: o.Value, op: opSet}
+		if o.Delete {
+			v.op = opDelete
+		}
+		m[uint64(i)] = v
+	}
+	if parallel {
+		return s.CommitParallel(m)
+	}
+	return s.Commit(m)
+}
+
+// VerifTreePrefix returns the key prefix under which Store.Root() persists the state commitment tree
+func VerifTreePrefix() []byte { return stateCommitIDPrefix }
+
+// VerifPendingStateOps returns the number of state operations pending in the store's write set
+func (s *Store) VerifPendingStateOps() int {
+	s.ss.txn.l.Lock()
+	defer s.ss.txn.l.Unlock()
+	return len(s.ss.txn.ops)
+}
